@@ -1,4 +1,5 @@
 """Tiny constant folder for arithmetic / literal expressions (no name resolution unless an env is given)."""
+import itertools
 import ast, operator
 
 _BIN = { ast.Add: operator.add, ast.Sub: operator.sub, ast.Mult: operator.mul, ast.FloorDiv: operator.floordiv,
@@ -362,7 +363,10 @@ def _store( tg, val, env ):
         key = fold( tg.slice, env )
         if not isinstance( base, ( dict, list )):
             raise NoFold( 'store into %r' % type( base ).__name__ )
-        base[key] = val
+        try:
+            base[key] = val
+        except ( IndexError, KeyError, TypeError, ValueError ) as exc:
+            raise Raises( type( exc ).__name__ )
     elif isinstance( tg, ast.Attribute ):
         # a.b = v on a folded mapping ( the repository's dotdict stores a.b as a['b'] ) or a plain record
         base = fold( tg.value, env )
@@ -440,6 +444,8 @@ def run_block( stmts, env, ignore_calls=(), stop_at_yield=True ):
             seq = fold( st.iter, env )
             if isinstance( seq, dict ):
                 seq = list( seq )
+            if isinstance( seq, ( enumerate, zip, range, reversed, type( {}.items() ), type( {}.keys() ), type( {}.values() ))):
+                seq = list( itertools.islice( seq, 4097 ))
             if not isinstance( seq, ( list, tuple, str, bytes )) or len( seq ) > 4096:
                 raise NoFold( 'loop over %r' % type( seq ).__name__ )
             done = None
